@@ -1457,7 +1457,7 @@ def big_plan(T, rng, tier, co):
             strad = {}
             for d_ in deltas:
                 for k, o, n in F:
-                    if n == 8 and o + d_ == MIB - 4:
+                    if n == 8 and o + d_ == MIB - 4 and not k.endswith(('-values', '-name-bytes')):
                         strad.setdefault(k, d_)
             kinds = sorted(strad)
             rng.shuffle(kinds)
@@ -1466,13 +1466,13 @@ def big_plan(T, rng, tier, co):
                 pick = [strad['var-begin']]
             pick.append(rng.choice(deltas))
             for i, d_ in enumerate(pick):
-                plan.append((fmt, BIG_L0 + d_, MIB, label(d_, MIB), i == 0))
+                plan.append((fmt, BIG_L0 + d_, MIB, label(d_, MIB), i == 0 and fmt != 1))
             if fmt == 5 and kinds:
                 d2 = strad[kinds[-1]] + MIB
                 plan.append((fmt, BIG_L0 + d2, 2 * MIB, label(d2, 2 * MIB), False))
         else:
             for i, d_ in enumerate(deltas):
-                plan.append((fmt, BIG_L0 + d_, MIB, label(d_, MIB), i % 9 == fmt))
+                plan.append((fmt, BIG_L0 + d_, MIB, label(d_, MIB), i % 15 == fmt))
             if fmt != 1:
                 d2s = [d_ + MIB for d_ in deltas]
                 rng.shuffle(d2s)
@@ -1562,7 +1562,7 @@ def run(ctx):
     if missing:
         ctx.violation('utilities missing from the build: %s' % missing, dict(missing=missing, relation='build'), no_input=True)
         return
-    ncases = int(os.environ.get('C20_CASES', '0')) or (48 if ctx.tier == 'quick' else 300)
+    ncases = int(os.environ.get('C20_CASES', '0')) or (48 if ctx.tier == 'quick' else 240)
     stats = {}
     occ = {}
     case_seed = ctx.rng.next() & 0x7fffffff          # all randomness derives from ctx.rng (VERIF_SEED)
